@@ -678,6 +678,11 @@ func main() {
 		for i := 0; i < len(a); i++ { // characters outside the alphabet
 			bad := "0OIl -_\n\x00\xff+/"
 			stringCase("non-base58-character", a[:i]+string(bad[(i+bi)%len(bad)])+a[i+1:], true)
+			// the four look-alikes the alphabet leaves out, each at every position (a decoder that computes digit values
+			// instead of looking them up gives one of them the value of its neighbour)
+			for _, ch := range "0OIl" {
+				stringCase("excluded-look-alike", a[:i]+string(ch)+a[i+1:], bi == 0 || th || (i+int(ch))%4 == 0)
+			}
 		}
 		for i := 0; i < len(a); i++ { // non-ASCII characters whose code point or bytes resemble the original character
 			for k, t := range []string{string(rune(0x100 + int(a[i]))), string(rune(0x400 + int(a[i]))), string(rune(0x4e00 + int(a[i]))),
